@@ -171,6 +171,8 @@ func CheckC01(c *Ctx) {
 	run.Floor("joins", 95)
 	run.Floor("intrinsic_joins", 6)
 	c.checkFormulas()
+	c.defaultsWiring("defaults-wiring", "trend", "momentum", "volatility", "volume")
+	run.Floor("default_constant_uses", 60)
 	for k, v := range intrinsicOffsets {
 		run.Assume("intrinsic offset " + k + " = " + v.Skew + ": " + v.Why)
 	}
